@@ -4166,6 +4166,8 @@ def tie_notes(part):
         next_measure = next(note.start.iter_next(Measure), None)
         cur_note = note
         note_end = cur_note.end
+        # a continuation the note is already tied to follows the last piece
+        orig_tie_next = note.tie_next
 
         # keep the list of stopping slurs, we need to transfer them to the last
         # tied note
@@ -4216,6 +4218,9 @@ def tie_notes(part):
         if cur_note != note:
             for slur in slur_stops:
                 slur.end_note = cur_note
+            if orig_tie_next is not None:
+                cur_note.tie_next = orig_tie_next
+                orig_tie_next.tie_prev = cur_note
 
     # then split/tie any notes that do not have a fractional/dot duration
     divs_map = part.quarter_duration_map
